@@ -140,6 +140,8 @@ func c20Exec(hist []c20Op, outcome func(string)) (string, bool, []lib.Problem) {
 	model := map[uint64]byte{} // absent = 0
 	var spans []c20Span
 	var writes []string
+	var kept []byte
+	var keptModel map[uint64]byte
 
 	var probs []lib.Problem
 	describe := func(step int) string {
@@ -149,6 +151,10 @@ func c20Exec(hist []c20Op, outcome func(string)) (string, bool, []lib.Problem) {
 			switch o := hist[k]; o.Op {
 			case "ckpt":
 				sb.WriteString(" checkpoint-save/load;")
+			case "save":
+				sb.WriteString(" keep-a-checkpoint;")
+			case "rollback":
+				sb.WriteString(" load-the-kept-checkpoint-into-the-live-storage;")
 			default:
 				fmt.Fprintf(&sb, " %s(addr=%d,len=%d);", o.Op, o.Addr, o.Len)
 			}
@@ -253,6 +259,38 @@ func c20Exec(hist []c20Op, outcome func(string)) (string, bool, []lib.Problem) {
 					bad(i, "write-"+class+"-accepted", "the write touches an address >= capacity (%s) but returned no error", class)
 				}
 			}
+		case "save":
+			// keep a checkpoint (and what the reference holds now) for a rollback
+			class = "save"
+			var buf bytes.Buffer
+			var err error
+			if msg := lib.Catch(func() { err = st.SaveCheckpoint(&buf) }); msg != "" || err != nil {
+				bad(i, "checkpoint-save-failed", "SaveCheckpoint: %v %s", err, msg)
+				break
+			}
+			kept = buf.Bytes()
+			keptModel = map[uint64]byte{}
+			for k, v := range model {
+				keptModel[k] = v
+			}
+			result = "ok"
+		case "rollback":
+			// load the kept checkpoint into the live storage, whatever it holds by now
+			class = "rollback"
+			if kept == nil {
+				break
+			}
+			lastEffect = "rollback"
+			var err error
+			if msg := lib.Catch(func() { err = st.LoadCheckpoint(bytes.NewReader(kept)) }); msg != "" || err != nil {
+				bad(i, "checkpoint-load-failed", "LoadCheckpoint of a kept checkpoint into the live storage: %v %s", err, msg)
+				break
+			}
+			model = map[uint64]byte{}
+			for k, v := range keptModel {
+				model[k] = v
+			}
+			result = "ok"
 		case "ckpt":
 			class = "ckpt"
 			lastEffect = "checkpoint"
@@ -326,7 +364,7 @@ func init() {
 		Rule: "explicit-state BFS over histories of Read(addr,len) / Write(addr,len bytes) / checkpoint save+load into a fresh storage on the real mem.Storage, for capacity in {1,7,8,16,4096,8192,2^64-1} x unit in {1,4,8,4096}, " +
 			"addresses {0, unit-1, unit, unit+1, cap-2..cap+1, 2^63, 2^64-2, 2^64-1}, lengths {0,1,2,3,unit,unit+1}; 2 (quick) / 3 (thorough) operations per history. Reference = sparse byte map with a capacity: in-range accesses must succeed and reads return the last written bytes; " +
 			"accesses touching an address >= capacity or wrapping must fail; after every history the storage is read back (all ranges touched so far, all lattice addresses, the whole array when capacity <= 16) and compared with the map, so failed operations and checkpoint reloads must leave the contents as the map says. " +
-			"state = (capacity, unit, sequence of successful writes)",
+			"state = (capacity, unit, sequence of successful writes); plus a rollback family: for every configuration and every in-range lattice writes w1, w2: [w1,] keep a checkpoint, w2, load the kept checkpoint into the LIVE storage, read back.",
 		MinOutcomes: 200,
 		Assumptions: []string{
 			"a zero-length access touches no address: it must succeed below the capacity, at or beyond the capacity either result is accepted",
@@ -353,6 +391,41 @@ func init() {
 				},
 				MaxDepth: 1 + lib.Pick(c, 2, 3),
 				Workers:  8,
+			})
+			// rollback family: [write w1,] keep a checkpoint, write w2, load the
+			// kept checkpoint into the live storage, for every in-range w1, w2 of
+			// the lattice; the final read-back must show the kept contents
+			if c.Mine(0) {
+				c.Add("bfs_plus_cases", 1)
+			}
+			lib.Cases(c, func(yield func([]c20Op) bool) {
+				for _, cp := range c20Caps {
+					for _, u := range c20Units {
+						var ws []c20Op
+						for _, o := range c20Ops(cp, u) {
+							if o.Op == "write" && o.Len > 0 && c20Classify(cp, o.Addr, o.Len) == "ok" {
+								ws = append(ws, o)
+							}
+						}
+						cfg := c20Op{Cap: cp, Unit: u, Op: "cfg"}
+						for _, w2 := range ws {
+							if !yield([]c20Op{cfg, {Op: "save"}, w2, {Op: "rollback"}}) {
+								return
+							}
+							for _, w1 := range ws {
+								if !yield([]c20Op{cfg, w1, {Op: "save"}, w2, {Op: "rollback"}}) {
+									return
+								}
+							}
+						}
+					}
+				}
+			}, func(h []c20Op) (string, []lib.Problem) {
+				_, _, probs := c20Exec(h, nil)
+				if len(probs) > 0 {
+					return "violation", probs
+				}
+				return fmt.Sprintf("rollback cap%d unit%d writes%d", h[0].Cap, h[0].Unit, len(h)-3), nil
 			})
 		},
 		Replay: func(c *lib.Ctx, raw json.RawMessage) []lib.Problem {
